@@ -203,6 +203,13 @@ def step (st : Unit) (line : String) : Unit × List String :=
     | some offs, some k, some before, some after, some b, some max, some c, some newB =>
       (st, [if refetchOk offs k before after b max c newB then "ok" else "fail"])
     | _, _, _, _, _, _, _, _ => (st, ["bad-op"])
+  | ["mon-truncg", lens, contents, c, yielded, endc] =>
+    -- contents: entries separated by `;`, the messages of one entry by `+`, `~` = an entry that contains nothing
+    match parseNats lens, c.toNat? with
+    | some lens, some c =>
+      let cs := (splitList contents).map (fun e => if e == "~" then [] else e.splitOn "+")
+      (st, [if truncOkG lens cs c (splitList yielded) (parseEnd endc) then "ok" else "fail"])
+    | _, _ => (st, ["bad-op"])
   | ["mon-reads", len, cost] => match len.toNat?, cost.toNat? with
     | some len, some cost => (st, [if readsOk len cost then "ok" else "fail"])
     | _, _ => (st, ["bad-op"])
